@@ -16,6 +16,9 @@ def run(prop, tier, seed, replay=None):
     try:
         q = tier == "quick"
         states, transitions, runs = rc.model_check(work, "MCCron", ["MC_C09q.cfg"] if q else ["MC_C09q.cfg", "MC_C09.cfg"])
+        # the three operations, the watcher's event queue and the lock it shares with the tick
+        st2, tr2, runs2 = rc.model_check(work, "MCCronOps", ["MC_C09_ops_quick.cfg"] if q else ["MC_C09_ops_quick.cfg", "MC_C09_ops.cfg"])
+        states, transitions, runs = states + st2, transitions + tr2, runs + runs2
         jobs = []
         if replay:
             sf = os.path.join(work, "replay.jsonl")
